@@ -47,7 +47,10 @@ BLOCKS = [("sscope", "A"), ("updated", "A"), ("ascope", "A"), ("updated", "R"), 
           # op 8 (family "same-instance"): an update supplying the very instance the shared prepared
           # update (op 5) supplies - so that the shared update is entered where its element is
           # already current
-          ("updated", "R!")]
+          ("updated", "R!"),
+          # ops 9 / 10 (family "disposables"): an async scope WITHOUT positional state whose only
+          # state is yielded by a disposable
+          ("dscope", "A"), ("dscope", "R")]
 # op 5 = "use the shared prepared update": `with prepared_update: probe` in one step (no suspension
 # inside, so uses never overlap); the object was built by the root at its start and may be used by
 # every task, any number of times - each use must sit on top of the *user's* current state
@@ -163,6 +166,24 @@ def _deep_programs(tier: str):
             if d <= 5:
                 # a sibling observer next to the deep task
                 yield {"scripts": [[0], deep, [1, -1]], "starts": [[0, 1, "spawn"], [0, 1, "create"]], "deep": d}
+    # scopes whose only state comes from a disposable (no positional state), in tasks sharing one
+    # enclosing scope: what a disposable yields belongs to that scope alone
+    ds = scripts(2, allowed=(0, 1, 9, 10))
+    for root in ds:
+        for child in ds:
+            if not any(op in (9, 10) for op in root + child):
+                continue
+            for pos in range(len(root) + 1):
+                yield {"scripts": [root, child], "starts": [[0, pos, "spawn" if (pos + len(child)) % 2 else "create"]]}
+    for c1 in ([9], [10], [9, -1], [9, 1]):
+        for c2 in ([9], [10], [1], []):
+            yield {"scripts": [[0], c1, c2], "starts": [[0, 1, "spawn"], [0, 1, "create"]]}
+    # VERY deep nesting (9, 12 levels) in one task next to an observer
+    for d in (9, 12) if tier == "quick" else (9, 12, 17):
+        for pattern in ((1,), (1, 3, 0)):
+            deep = [pattern[i % len(pattern)] for i in range(d)] + [-1] * d
+            yield {"scripts": [[0, 1], deep], "starts": [[0, 2, "spawn"]], "deep": d}
+            yield {"scripts": [[0], deep, []], "starts": [[0, 1, "create"], [0, 1, "create"]], "deep": d}
     # the ROOT nests deep and starts the child from the innermost level: the child keeps seeing
     # that snapshot while the root unwinds
     for d in (4, 6):
@@ -269,7 +290,13 @@ def execute(program, ch: Chooser) -> Result:  # noqa: C901, PLR0915
                 keep.extend(states)
                 for st_ in states:
                     supplied[id(st_)] = st_.tag
-                if kind == "prepared":
+                if kind == "dscope":
+                    from hv.ctxkit import Disp
+
+                    cm = ctx.scope(label, disposables=[Disp(states[0]), Disp(None)])
+                    await cm.__aenter__()
+                    kind = "ascope"
+                elif kind == "prepared":
                     cm, states = prepared["cm"], prepared["states"]
                     cm.__enter__()
                     kind = "sscope"
